@@ -10,13 +10,20 @@ Proof ladder of the design and how far it is climbed (see notes/C03.md):
 
   rung 1  `unify_sound`            proved, all types, all fuel  (syntactic rows, `rows = false`)
   rung 2  `unify_mgu`              proved, all types, all fuel  (same)
-          `unify_complete_partial` proved: a reported clash / occurs failure means there is no unifier
-  rung 3  infer_sound            : infer false Γ e n = .ok (σ, τ, n') → HasType (Γ.subst σ) e τ
-  rung 4  infer_alpha / infer_unused_let / infer_annot_self (the three stability clauses)
-  rung 5  infer_complete_principal : HasType Γ e τ → ∃ τ₀, infer … = ok τ₀ ∧ τ₀ ⊒ τ
-          rungs 3–5 are NOT proved; on the implementation they are what the oracle of
-          harness/src/bin/c03.rs checks (independent algorithm W + the three metamorphic
-          transformations), and model = implementation is checked by exact correspondence.
+          `unify_terminates`, `unify_fuel_mono`, `unify_complete`: some fuel always suffices, more
+          fuel never changes an answer, and a unifiable pair is unified (no `_partial` any more)
+  rung 3  `infer_sound`, `infer_sound_inst`   proved for ALL constructs of the model (var, lam, app,
+          let WITH generalisation, literals, `#Int<`, if, records/tuples, projection, arrays,
+          constructors) on the syntactic-row path, w.r.t. the declarative system `HasType`
+          `unify_rows_bridge`, `infer_rows_bridge`, `infer_sound_gluon_partial`: the EXECUTED model
+          (by-label path on) coincides with the syntactic one on projection-free programs, hence is sound
+  rung 4  infer_alpha / infer_unused_let / infer_annot_self (the three stability clauses): only the
+          declarative half of the unused-binding clause is proved (`unused_let_declarative_partial`)
+  rung 5  infer_complete_principal : HasType Δ e τ → ∃ τ₀, infer … = ok τ₀ ∧ τ₀ ⊒ τ
+          rungs 4–5 are NOT proved for `infer` (see the comment at the end of this file for what
+          is missing); on the implementation they are what the oracle of harness/src/bin/c03.rs
+          checks (independent algorithm W + the three metamorphic transformations), and
+          model = implementation is checked by exact correspondence.
 
   With gluon's by-label row path switched on, rung 1 is FALSE for the unchanged code:
   `unify_rows_unsound_fails`, `infer_row_tail_unlinked_fails` (known finding
@@ -24,6 +31,10 @@ Proof ladder of the design and how far it is climbed (see notes/C03.md):
 -/
 import GluonModel.HM
 import GluonModel.Proofs.HM
+import GluonModel.Proofs.HMTerm
+import GluonModel.Proofs.HMSound
+import GluonModel.Proofs.HMBridge
+import GluonModel.Proofs.HMStab
 
 namespace GluonModel.Props.C03
 open GluonModel.HM
@@ -41,13 +52,53 @@ theorem unify_mgu (fuel n : Nat) (s t : Ty) (σ θ : Subst) (n' : Nat)
     ∃ δ : Subst, ∀ v, θ v = (σ v).subst δ :=
   ⟨θ, fun v => (Proofs.unify_mgu fuel n s t σ θ n' h hθ v).symm⟩
 
-/-- Completeness of unification, up to fuel: whenever `unify` rejects (constructor clash or
-    occurs check) the two types have no unifier at all, so rejecting the program loses no typing.
-    `_partial`: the full statement also needs "some fuel suffices" (termination), which is not
-    proved; the driver reports fuel exhaustion as a distinct answer (never observed). -/
-theorem unify_complete_partial (fuel n : Nat) (s t : Ty) (θ : Subst) (e : UErr)
+/-- Termination: for every pair of types some fuel suffices (the answer is not `fuel`). -/
+theorem unify_terminates (n : Nat) (s t : Ty) : ∃ N, unify false N n s t ≠ .error .fuel :=
+  Proofs.unify_fuel_exists n s t
+
+/-- More fuel never changes an answer. -/
+theorem unify_fuel_mono (fuel fuel' n : Nat) (s t : Ty) (r : Except UErr (Subst × Nat))
+    (hle : fuel ≤ fuel') (h : unify false fuel n s t = r) (hr : r ≠ .error .fuel) :
+    unify false fuel' n s t = r :=
+  Proofs.unify_mono fuel fuel' n s t r hle h hr
+
+/-- A rejection other than by fuel (constructor clash, occurs check) means there is no unifier. -/
+theorem unify_reject_no_unifier (fuel n : Nat) (s t : Ty) (θ : Subst) (e : UErr)
     (he : e ≠ .fuel) (h : unify false fuel n s t = .error e) : s.subst θ ≠ t.subst θ :=
   Proofs.unify_error_no_unifier fuel n s t θ e he h
+
+/-- Completeness of unification: a unifiable pair is unified, for every sufficiently large fuel
+    (and by `unify_mgu` the result is a most general unifier). -/
+theorem unify_complete (n : Nat) (s t : Ty) (θ : Subst) (hθ : s.subst θ = t.subst θ) :
+    ∃ N, ∀ fuel, N ≤ fuel → ∃ σ n', unify false fuel n s t = .ok (σ, n') := by
+  obtain ⟨N, r, hr, hall⟩ := Proofs.unify_total n s t
+  refine ⟨N, fun fuel hle => ?_⟩
+  rw [hall fuel hle]
+  match r, hr, hall with
+  | .ok (σ, n'), _, _ => exact ⟨σ, n', rfl⟩
+  | .error e, hr, hall =>
+    have he : e ≠ .fuel := fun h => hr (by rw [h])
+    exact absurd hθ (Proofs.unify_error_no_unifier N n s t θ e he (hall N (Nat.le_refl _)))
+
+/-- Rung 3. Soundness of inference, all constructs, `let` with generalisation included: the
+    reported type is derivable in the declarative system, in the environment denoted by `Γ`
+    under the final substitution. -/
+theorem infer_sound (Γ : Env) (e : Expr) (n : Nat) (τ : Ty) (S : Subst) (n' : Nat)
+    (h : infer false Γ e Subst.id n = .ok (τ, S, n')) :
+    HasType (denote S Γ) e (τ.subst S) :=
+  Proofs.infer_sound Γ e n τ S n' h
+
+/-- … and so is every instance of the reported type (one half of "the reported type is
+    principal": everything below it is a typing). -/
+theorem infer_sound_inst (Γ : Env) (e : Expr) (n : Nat) (τ : Ty) (S : Subst) (n' : Nat) (Q : Subst)
+    (h : infer false Γ e Subst.id n = .ok (τ, S, n')) :
+    HasType (denote (Q.comp S) Γ) e ((τ.subst S).subst Q) :=
+  Proofs.infer_sound_inst Γ e n τ S n' Q h
+
+/-- Closed programs: the canonical answer of the model is a typing. -/
+theorem inferTop_sound (e : Expr) (τ : Ty) (S : Subst) (n' : Nat)
+    (h : infer false [] e Subst.id 0 = .ok (τ, S, n')) : HasType [] e (τ.subst S) :=
+  Proofs.infer_sound [] e 0 τ S n' h
 
 /-! Non-vacuity: `a -> Int` against `String -> b`. -/
 example : ∃ σ n', unify false 8 2 (fn (.var 0) tInt) (fn tString (.var 1)) = .ok (σ, n') ∧
@@ -86,6 +137,67 @@ theorem infer_row_tail_unlinked_fails :
                (tArr (tRec (.ext "x" tInt (.ext "y" tInt (.var 0)))))) := by
   rfl
 
+/-- Bridge to the EXECUTED model (gluon's by-label row path switched on): on types all of whose
+    rows are closed that path is never entered, the two unifiers coincide. -/
+theorem unify_rows_bridge (fuel n : Nat) (s t : Ty) (hs : Proofs.CR s) (ht : Proofs.CR t) :
+    unify true fuel n s t = unify false fuel n s t :=
+  (Proofs.unify_bridge fuel n s t hs ht).1
+
+/-- … and for every projection-free program the executed inference is the one with syntactic
+    rows (all rows that arise are closed). -/
+theorem infer_rows_bridge (e : Expr) (n : Nat) (h : Proofs.ProjFree e) :
+    infer true [] e Subst.id n = infer false [] e Subst.id n :=
+  Proofs.infer_bridge e n h
+
+/-- Hence soundness of the executed model — the one the driver runs and the harness compares
+    with the real checker — for every projection-free closed program (let-polymorphism, records,
+    tuples, arrays, variants, if).  `_partial`: programs with field projection are covered only
+    by `infer_sound` for syntactic rows; with the by-label path the statement is false
+    (`infer_row_tail_unlinked_fails`). -/
+theorem infer_sound_gluon_partial (e : Expr) (τ : Ty) (S : Subst) (n' : Nat)
+    (hp : Proofs.ProjFree e)
+    (h : infer true [] e Subst.id 0 = .ok (τ, S, n')) : HasType [] e (τ.subst S) := by
+  rw [infer_rows_bridge e 0 hp] at h
+  exact inferTop_sound e τ S n' h
+
+/-- Third stability clause, declarative half: a binding the body does not use changes neither
+    acceptance nor the types — a `let` with an unused variable has exactly the types of its body,
+    provided (and only if) the bound expression is typable at all.  (`_partial` w.r.t. the
+    property: it is a fact about `HasType`; transferring it to `infer` needs completeness.) -/
+theorem unused_let_declarative_partial (Δ : SEnv) (x : String) (e b : Expr) (τ : Ty)
+    (hx : x ∉ Proofs.fv b) :
+    HasType Δ (.letE x e b) τ ↔ (∃ τ₁, HasType Δ e τ₁) ∧ HasType Δ b τ :=
+  Proofs.hasType_unused_let Δ x e b τ hx
+
+/-- A typing depends on the environment only at the free variables of the expression. -/
+theorem hasType_env_irrelevant (Δ Δ' : SEnv) (e : Expr) (τ : Ty) (h : HasType Δ e τ)
+    (hag : ∀ y, y ∈ Proofs.fv e → slookup y Δ' = slookup y Δ) : HasType Δ' e τ :=
+  Proofs.hasType_env_congr Δ e τ h Δ' hag
+
+example : "u" ∉ Proofs.fv (.app (.var "f") (.int 1)) := by decide
+
+/-! The declarative system is not trivially satisfiable: `1 2` has no type, `\x -> x x` has none
+    (the latter needs the occurs argument and is left to the model: see the `example` below). -/
+example (τ : Ty) : ¬ HasType [] (.app (.int 1) (.int 2)) τ := by
+  intro h
+  cases h with
+  | app _ _ _ a _ hf _ => cases hf
+
+/-- the bound expression of a `let` must itself be typable -/
+example (τ : Ty) : ¬ HasType [] (.letE "x" (.app (.int 1) (.int 2)) (.int 3)) τ := by
+  intro h
+  cases h with
+  | letE _ _ _ _ P _ hne hall _ =>
+    obtain ⟨τ₁, hp⟩ := hne
+    cases hall τ₁ hp with
+    | app _ _ _ a _ hf _ => cases hf
+
+/-- Non-vacuity of `infer_sound`: a let-polymorphic program with records is accepted. -/
+example : ∃ τ S n', infer false [] (.letE "id" (.lam "x" (.var "x"))
+      (.rcd (.fcons "_0" (.app (.var "id") (.int 1)) (.fcons "_1" (.app (.var "id") (.str "a")) .fnil))))
+      Subst.id 0 = .ok (τ, S, n') ∧ τ.subst S = tRec (.ext "_0" tInt (.ext "_1" tString .empty)) :=
+  ⟨_, _, _, rfl, rfl⟩
+
 /-- `_partial`: with the by-label path off the same unification problem is (correctly) not
     solved by binding a dangling tail — it needs the closed tail, which syntactic rows provide
     only for equal label sequences; soundness (`unify_sound`) holds there for all inputs. -/
@@ -108,5 +220,25 @@ example : inferTop true (.lam "x" (.app (.var "x") (.var "x"))) = none := rfl
 example : inferTop true (.lam "f" (.letE "g" (.lam "y" (.app (.var "f") (.var "y")))
       (.rcd (.fcons "_0" (.app (.var "g") (.int 1)) (.fcons "_1" (.app (.var "g") (.str "a")) .fnil))))) =
     none := rfl
+
+/-
+Not proved (rungs 4–5), with what is missing:
+
+  infer_complete_principal :
+      HasType (denote R Γ) e τ' → ∃ τ S n', infer false Γ e Subst.id n = .ok (τ, S, n') ∧ ∃ Q, τ' = (τ.subst S).subst Q
+    needs (a) the freshness invariant (every variable of Γ, of the range of S and of the equations is
+    below the counter, so a solution can be extended on the new variables), (b) `infer` parametrised by
+    the unification fuel (with the constant `unifyFuel` the statement is false for astronomically large
+    types; `unify_complete` gives the fuel), (c) for `let`: that the generalised scheme denotes exactly the
+    set of types of the right-hand side (principal-type property used inductively).
+  infer_unused_let, infer_alpha : equality of the canonical results of two runs whose counters and
+    substitutions differ; needs equivariance of `infer` under renaming of type variables (the order of
+    `generalize`'s variable list depends on the whole environment).  With completeness they would follow
+    from the declarative facts, which are easy (weakening, α-invariance of `HasType`).
+  infer_annot_self : the model has no annotation construct.
+  For programs WITH field projection `infer_sound` speaks about the model with syntactic rows only; the
+  executed model (`rows = true`) is tied to it through `infer_rows_bridge` on projection-free programs and
+  otherwise only through the implementation (both are compared with the real checker / the reference W).
+-/
 
 end GluonModel.Props.C03
